@@ -354,7 +354,9 @@ impl Walrus {
                             used += consumed as u64;
                             in_block_off += consumed as u64;
                             entries_in_block = entries_in_block.saturating_add(1);
-                            if in_block_off >= block_limit {
+                            // stop when no further entry header fits into the block: reading one
+                            // would run past the block (and past the file for the last block)
+                            if in_block_off + PREFIX_META_SIZE as u64 > block_limit {
                                 break;
                             }
                         }
